@@ -226,3 +226,12 @@ func replayGoTest(w *World, workdir, pkgDir, injectAs, harnessFile, run, what st
 	}
 	return ro
 }
+
+// noPanic: run-time panic obligations are generated for the whole unit ("nopanic" unit flag) or for a
+// single function under contract ("opt nopanic").
+func (g *gen) noPanic() bool {
+	if g.unit != nil && g.unit.NoPanic {
+		return true
+	}
+	return g.ct != nil && g.ct.Opts["nopanic"] != ""
+}
